@@ -140,7 +140,7 @@ func (l Logr) DemonAddDownloadedFile(DemonID, FileName string, FileBytes []byte)
 
 	// check if we don't have a path traversal
 	path := filepath.Clean(DemonDownload)
-	if !strings.HasPrefix(path, DemonDownloadDir) {
+	if !strings.HasPrefix(path, DemonDownloadDir+"/") {
 		logger.Error("File didn't started with agent download path. abort")
 		return
 	}
